@@ -83,6 +83,25 @@ def _hostile(args):
     n = 0
     shapes = [b"\0\0\0\0" + bytes(7), rig.MAGIC_BYTES + b"\x04", rig.hdr(2, 0, 0x7FFFFFFF), rig.hdr(9, 0, 4) + b"abcd", b"",
               rig.hdr(4, 0, 100) + b"short body"]
+    # ... and well-formed decode requests whose credential fails at each later stage in the daemon (armor, cipher finalisation
+    # = a damaged last block, MAC, decompression): whatever a failed library call leaves behind in the worker thread that
+    # served it (error queues, contexts, scratch buffers) must not colour the requests that thread serves next
+    try:
+        import hostile as _h, pyref as _p
+        for (c_, m_, z_) in ((4, 5, 0), (5, 6, 3), (2, 3, 2)):
+            g, _st2 = rig.encode(sock, uid=1, gid=1, cipher=c_, mac=m_, zip_=z_, data=b"to be damaged " * 20)
+            if g is None or g["error_num"] != 0:
+                continue
+            body = _h.unarmor(g["data"])
+            for off in (1, 2, 17, len(body) // 2, len(body) - 6):
+                b = bytearray(body)
+                b[-off] ^= 0x5a
+                cred = _p.armor(bytes(b))
+                shapes.append(rig.hdr(4, 0, 4 + len(cred)) + rig.dec_req_body(cred))
+            cred = _p.armor(body[:-3])
+            shapes.append(rig.hdr(4, 0, 4 + len(cred)) + rig.dec_req_body(cred))
+    except Exception:
+        pass
     while time.time() < t_end:
         try:
             c = _s.socket(_s.AF_UNIX, _s.SOCK_STREAM)
